@@ -25,6 +25,7 @@ type specEnv struct {
 	depth int
 	oldVars map[string]Val // values of names in the pre-state (nil: same as vars)
 	acc     *[]access      // element reads recorded while evaluating a quantifier body
+	qvars   []string       // bound variables of enclosing quantifiers
 }
 
 // finiteQ maps a generated quantified formula to a finite conjunction of instances;
@@ -139,6 +140,9 @@ func (e *specEnv) errorf(format string, a ...interface{}) {
 }
 
 var untypedInt = types.Typ[types.UntypedInt]
+
+// ghostArrT marks ghost arrays (Int -> Int) in spec expressions.
+var ghostArrT = types.NewNamed(types.NewTypeName(0, nil, "ghostarray", nil), types.NewChan(types.SendRecv, types.Typ[types.Int]), nil)
 var tBool = types.Typ[types.Bool]
 var tInt = types.Typ[types.Int]
 
@@ -237,6 +241,10 @@ func (e *specEnv) ident(n *ast.Ident) Val {
 	}
 	if v, ok := e.vars[n.Name]; ok {
 		return v
+	}
+	if strings.HasPrefix(n.Name, "gh_") {
+		e.t.eng.heapSort["G."+n.Name] = "(Array Int Int)"
+		return Val{ghostArrT, []string{e.t.heapGet(e.cur, "G."+n.Name, "(Array Int Int)")}}
 	}
 	if lv, ok := e.lvs[n.Name]; ok {
 		// pointer parameter bound to an l-value: its "value" is the address
@@ -411,6 +419,12 @@ func (e *specEnv) elemRead(s Val, idx string) Val {
 func (e *specEnv) index(n *ast.IndexExpr) Val {
 	b := e.eval(n.X)
 	i := e.eval(n.Index)
+	if b.T == ghostArrT {
+		if e.acc != nil {
+			*e.acc = append(*e.acc, access{b.C[0], "0", i.C[0], i.C[0]})
+		}
+		return Val{tInt, []string{sel(b.C[0], i.C[0])}}
+	}
 	switch bt := under(b.T).(type) {
 	case *types.Slice:
 		return e.elemRead(b, i.C[0])
@@ -483,9 +497,12 @@ func (e *specEnv) binary(n *ast.BinaryExpr) Val {
 	case token.LSS, token.LEQ, token.GTR, token.GEQ:
 		o := map[token.Token]string{token.LSS: "<", token.LEQ: "<=", token.GTR: ">", token.GEQ: ">="}[n.Op]
 		return Val{tBool, []string{"(" + o + " " + a.C[0] + " " + b.C[0] + ")"}}
-	case token.ADD, token.SUB, token.MUL:
-		o := map[token.Token]string{token.ADD: "+", token.SUB: "-", token.MUL: "*"}[n.Op]
-		return Val{T, []string{"(" + o + " " + a.C[0] + " " + b.C[0] + ")"}}
+	case token.ADD:
+		return Val{T, []string{add(a.C[0], b.C[0])}}
+	case token.SUB:
+		return Val{T, []string{sub(a.C[0], b.C[0])}}
+	case token.MUL:
+		return Val{T, []string{"(* " + a.C[0] + " " + b.C[0] + ")"}}
 	case token.QUO, token.REM, token.SHL, token.SHR, token.AND, token.OR, token.XOR, token.AND_NOT:
 		var ca, cb *big.Int
 		if x, ok := new(big.Int).SetString(a.C[0], 10); ok {
@@ -539,6 +556,13 @@ func (e *specEnv) withState(cur *State, f func() Val) Val {
 }
 
 func (e *specEnv) quant(kind string, n *ast.CallExpr) Val {
+	trig := ""
+	if len(n.Args) == 4 {
+		if bl, ok := n.Args[3].(*ast.BasicLit); ok {
+			trig = strings.Trim(bl.Value, "\"")
+		}
+		n = &ast.CallExpr{Fun: n.Fun, Args: n.Args[:3]}
+	}
 	if len(n.Args) != 3 {
 		e.errorf("%s(lo, hi, func(i int) bool {...})", kind)
 		return Val{tBool, []string{"true"}}
@@ -554,6 +578,8 @@ func (e *specEnv) quant(kind string, n *ast.CallExpr) Val {
 	bv := fmt.Sprintf("%s!q%d", name, e.t.nfr)
 	saved, had := e.vars[name]
 	e.vars[name] = Val{tInt, []string{q(bv)}}
+	e.qvars = append(e.qvars, q(bv))
+	defer func() { e.qvars = e.qvars[:len(e.qvars)-1] }()
 	savedAcc := e.acc
 	var accs []access
 	e.acc = &accs
@@ -563,6 +589,18 @@ func (e *specEnv) quant(kind string, n *ast.CallExpr) Val {
 		e.vars[name] = saved
 	} else {
 		delete(e.vars, name)
+	}
+	if trig != "" {
+		var keep []access
+		for _, a := range accs {
+			for _, tname := range strings.Split(trig, ",") {
+				if strings.Contains(a.heapSel, strings.TrimSpace(tname)) {
+					keep = append(keep, a)
+					break
+				}
+			}
+		}
+		accs = keep
 	}
 	return Val{tBool, []string{reindex(kind, q(bv), lo, hi, body.C[0], accs, &e.t.nfr)}}
 }
@@ -708,6 +746,22 @@ func (e *specEnv) call(n *ast.CallExpr) Val {
 			f, s := e.eval(n.Args[0]), e.eval(n.Args[1])
 			nn := e.eval(n.Args[2]).C[0]
 			return Val{tBool, []string{and(eq(f.C[0], s.C[0]), le(s.C[1], f.C[1]), le(add(f.C[1], f.C[2]), add(s.C[1], nn)))}}
+		case "sumlen":
+			// sumlen(s, i, c) = sum over j in [i, len(s)) of (c + len(s[j])), s a slice of slices
+			sv := e.eval(n.Args[0])
+			iv := e.eval(n.Args[1]).C[0]
+			cv := e.eval(n.Args[2]).C[0]
+			sl, ok := under(sv.T).(*types.Slice)
+			if !ok {
+				e.errorf("sumlen: not a slice")
+				return bad(tInt)
+			}
+			if _, ok := under(sl.Elem()).(*types.Slice); !ok {
+				e.errorf("sumlen: not a slice of slices")
+				return bad(tInt)
+			}
+			h := e.t.heapGet(e.cur, elemHeap(sl.Elem(), ".len"), arr2Sort("Int"))
+			return Val{tInt, []string{fmt.Sprintf("(ssum %s %s %s %s)", sel(h, sv.C[0]), add(sv.C[1], iv), add(sv.C[1], sv.C[2]), cv)}}
 		case "disjoint":
 			a, b := e.eval(n.Args[0]), e.eval(n.Args[1])
 			return Val{tBool, []string{or(not(eq(a.C[0], b.C[0])), le(add(a.C[1], a.C[2]), b.C[1]), le(add(b.C[1], b.C[2]), a.C[1]))}}
@@ -742,6 +796,46 @@ func (e *specEnv) call(n *ast.CallExpr) Val {
 			rng := and(le(add(s.C[1], lo), bv), lt(bv, add(s.C[1], hi)))
 			qf := fmt.Sprintf("(forall ((%s Int)) %s)", bv, imp(rng, and(fs...)))
 			regFinite(qf, bv, add(s.C[1], lo), imp(rng, and(fs...)))
+			return Val{tBool, []string{qf}}
+		case "preservedarrays":
+			// preservedarrays(s): every array (of s's element type) that existed in the pre-state is unchanged
+			sv := e.eval(n.Args[0])
+			sl, ok := under(sv.T).(*types.Slice)
+			if !ok {
+				e.errorf("preservedarrays: not a slice")
+				return Val{tBool, []string{"true"}}
+			}
+			var fs []string
+			for _, c := range flatten(sl.Elem()) {
+				hn := elemHeap(sl.Elem(), c.Suffix)
+				cur := e.t.heapGet(e.cur, hn, arr2Sort(c.Sort))
+				old := e.t.heapGet(e.old, hn, arr2Sort(c.Sort))
+				e.t.nfr++
+				bv := q(fmt.Sprintf("pa!q%d", e.t.nfr))
+				fs = append(fs, fmt.Sprintf("(forall ((%s Int)) (! %s :pattern ((select %s %s))))", bv,
+					imp(le(bv, e.t.top(e.old)), eq(sel(cur, bv), sel(old, bv))), cur, bv))
+			}
+			return Val{tBool, []string{and(fs...)}}
+		case "unchangedoutside":
+			// unchangedoutside(s, lo, hi): the backing array of s equals its old contents outside s[lo:hi]
+			sv := e.eval(n.Args[0])
+			lo, hi := e.eval(n.Args[1]).C[0], e.eval(n.Args[2]).C[0]
+			sl := under(sv.T).(*types.Slice)
+			e.t.nfr++
+			bv := q(fmt.Sprintf("u!q%d", e.t.nfr))
+			var fs []string
+			pat := ""
+			for _, c := range flatten(sl.Elem()) {
+				hn := elemHeap(sl.Elem(), c.Suffix)
+				cur := sel(e.t.heapGet(e.cur, hn, arr2Sort(c.Sort)), sv.C[0])
+				fs = append(fs, eq(sel(cur, bv), sel(sel(e.t.heapGet(e.old, hn, arr2Sort(c.Sort)), sv.C[0]), bv)))
+				if pat == "" {
+					pat = sel(cur, bv)
+				}
+			}
+			rng := or(lt(bv, add(sv.C[1], lo)), le(add(sv.C[1], hi), bv))
+			qf := fmt.Sprintf("(forall ((%s Int)) (! %s :pattern (%s)))", bv, imp(rng, and(fs...)), pat)
+			regFinite(qf, bv, sub(add(sv.C[1], lo), "3"), imp(rng, and(fs...)))
 			return Val{tBool, []string{qf}}
 		case "haskey":
 			m, k := e.eval(n.Args[0]), e.eval(n.Args[1])
@@ -787,6 +881,20 @@ func (e *specEnv) call(n *ast.CallExpr) Val {
 		// conversion to a basic or named type?
 		if T := e.typeExpr(id); T != nil {
 			return e.conv(T, n)
+		}
+		// spec macro (//@ define)
+		if d := e.t.eng.cs.ByTarget["define "+e.pkg.Path()+"."+id.Name]; d != nil && d.DefExpr != nil {
+			if len(n.Args) != len(d.DefParams) {
+				e.errorf("define %s: %d arguments expected", id.Name, len(d.DefParams))
+				return bad(tBool)
+			}
+			sub := &specEnv{t: e.t, vars: map[string]Val{}, lvs: map[string]*LVal{}, cur: e.cur, old: e.old, pkg: e.pkg, depth: e.depth + 1, acc: e.acc}
+			for i, a := range n.Args {
+				sub.vars[d.DefParams[i]] = e.eval(a)
+			}
+			r := sub.eval(d.DefExpr)
+			e.errs = append(e.errs, sub.errs...)
+			return r
 		}
 		// spec function in the package
 		if fd := e.t.eng.specFunc(e.pkg, id.Name); fd != nil {
@@ -972,7 +1080,7 @@ func (e *specEnv) inline(fd *ast.FuncDecl, pkg *types.Package, args []ast.Expr) 
 	}
 	// parameter types from the types.Func
 	fobj, _ := pkg.Scope().Lookup(fd.Name.Name).(*types.Func)
-	sub := &specEnv{t: e.t, vars: map[string]Val{}, lvs: map[string]*LVal{}, cur: e.cur, old: e.old, pkg: pkg, depth: e.depth + 1, acc: e.acc}
+	sub := &specEnv{t: e.t, vars: map[string]Val{}, lvs: map[string]*LVal{}, cur: e.cur, old: e.old, pkg: pkg, depth: e.depth + 1, acc: e.acc, qvars: e.qvars}
 	for i, a := range args {
 		v := e.eval(a)
 		if fobj != nil {
@@ -991,5 +1099,39 @@ func (e *specEnv) inline(fd *ast.FuncDecl, pkg *types.Package, args []ast.Expr) 
 		}
 	}
 	e.errs = append(e.errs, sub.errs...)
-	return r
+	return e.nameIt(r)
+}
+
+// nameIt replaces a large closed term by a named constant (common-subexpression sharing).
+func (e *specEnv) nameIt(r Val) Val {
+	out := make([]string, len(r.C))
+	for i, c := range r.C {
+		out[i] = c
+		if len(c) < 60 {
+			continue
+		}
+		closed := true
+		for _, qv := range e.qvars {
+			if strings.Contains(c, qv) {
+				closed = false
+				break
+			}
+		}
+		if !closed || strings.Contains(c, "!q") {
+			continue
+		}
+		if nm, ok := e.t.cse[c]; ok {
+			out[i] = nm
+			continue
+		}
+		sort := "Int"
+		if isBool(r.T) && len(r.C) == 1 {
+			sort = "Bool"
+		}
+		nm := e.t.freshConst("sf", sort)
+		e.t.assumeRaw(eq(nm, c))
+		e.t.cse[c] = nm
+		out[i] = nm
+	}
+	return Val{r.T, out}
 }
